@@ -3,6 +3,9 @@
 // shake_1 is not under contract; matrix() calls it on the operands of all()/of() only
 #[verifier::external_body]
 fn shake_1(expression: Expression) -> (r: Expression)
+    ensures
+        forall|ids: Ids| mx_pre(expression, ids) ==> #[trigger] sh_post(r, expression, ids),
+        is_term(expression) ==> r == expression,
 { unimplemented!() }
 
 pub open spec fn cols_of(v: Seq<(String, u32)>) -> Seq<String> { v.map_values(|p: (String, u32)| p.0) }
@@ -94,3 +97,11 @@ pub fn string_eq(a: &String, b: &String) -> (r: bool)
 {
     a == b
 }
+
+// Entry::or_insert_with (vstd specifies or_insert only): the present value is kept, otherwise the closure's result is
+// inserted; stated over vstd's Entry model (value / final_value) so that a change which starts using it is judged
+pub assume_specification<'a, K, V, A: std::alloc::Allocator, F: FnOnce() -> V>[ std::collections::hash_map::Entry::<'a, K, V, A>::or_insert_with ](e: std::collections::hash_map::Entry<'a, K, V, A>, f: F) -> (r: &'a mut V)
+    ensures
+        match e.value() { Some(v) => *r == v, None => f.ensures((), *r) },
+        e.final_value() == Some(*final(r)),
+;
